@@ -7,7 +7,8 @@
 #include <unistd.h>
 
 static char* g_out; static uint8_t* g_img;
-static const int ENTROPY_WRAPS[] = { PV_WRAP_GETRANDOM, PV_WRAP_GETENTROPY, PV_WRAP_RAND, PV_WRAP_RANDOM, PV_WRAP_OPEN, PV_WRAP_FOPEN, PV_WRAP_CLOCK_GETTIME, PV_WRAP_GETTIMEOFDAY, PV_WRAP_CLOCK };
+static const int ENTROPY_WRAPS[] = { PV_WRAP_GETRANDOM, PV_WRAP_GETENTROPY, PV_WRAP_RAND, PV_WRAP_RANDOM, PV_WRAP_OPEN, PV_WRAP_FOPEN, PV_WRAP_CLOCK_GETTIME, PV_WRAP_GETTIMEOFDAY, PV_WRAP_CLOCK,
+                                     PV_WRAP_MKTIME, PV_WRAP_TIMEGM, PV_WRAP_GMTIME, PV_WRAP_GMTIME_R, PV_WRAP_LOCALTIME, PV_WRAP_LOCALTIME_R };
 
 static void init(void) {
     pv_world_init(pv.seed);
@@ -142,6 +143,7 @@ static void run_inject(uint64_t idx, pv_rng* rng) {
     pv_wrap_time_scripted = 0;
     if (st != POLYSEED_OK) { pv_violation("C18/create-failed", "%s after %s", pv_status_name(st), hist); goto out; }
     ok &= routed(t, "polyseed_create", true, false, true);
+    for (unsigned i = 0; i < sizeof ENTROPY_WRAPS / sizeof *ENTROPY_WRAPS; ++i) if (wraps_delta(ENTROPY_WRAPS[i])) { ok = false; char key[96]; snprintf(key, sizeof key, "C18/other-source-consulted/%s", pv_wrap_name(ENTROPY_WRAPS[i])); pv_violation(key, "create (table %s) called libc %s()", hist, pv_wrap_name(ENTROPY_WRAPS[i])); }
     if (pv_ev_count(PV_EV_RAND) < 1 || pv_ev_count(PV_EV_MEMZERO) < 1) { ok = false; pv_violation("C18/injected-entry-not-used/randbytes-or-memzero", "create: %d randbytes, %d memzero events", pv_ev_count(PV_EV_RAND), pv_ev_count(PV_EV_MEMZERO)); }
     /* encode (Korean: NFC is needed) */
     wraps_begin(); pv_api_encode(s, KO && KO->lib ? KO->lib : L->lib, coin, g_out); PV_COUNT("evaluations", 1);
